@@ -289,6 +289,48 @@ func Run(c *engine.Ctx) {
 	lifecycleLists(c)
 	zones(c)
 	stringContents(c)
+	identifierCompositions(c)
+}
+
+// identifierCompositions: node identifiers built from the structural tokens of the library's own sources (the
+// prefixes, separators and flags it searches identifiers for), so that identifiers sit on both sides of every
+// such test. Many identifiers share one document (a star under the root); a lost, renamed or merged one shows in
+// the node set.
+func identifierCompositions(c *engine.Ctx) {
+	c.Group("identifier-compositions")
+	ids := gen.TokenCompositions(3, func(s string) bool { return !gen.ReservedID(s) && s != "root-0" && strings.TrimSpace(s) != "" })
+	const per = 150
+	c.Bound("identifier-compositions", fmt.Sprintf("%d identifiers = every concatenation of <=3 of the %d structural tokens of the library's sources (outside the reserved protobom-...-auto namespace), %d per document as children of one root x {1.4, 1.5}", len(ids), len(gen.StructuralTokens()), per))
+	if gen.LiteralsUnavailable {
+		c.Note("source vocabulary unavailable: identifier compositions not explored")
+		c.Cap("source-vocabulary-unavailable")
+		return
+	}
+	for lo := 0; lo < len(ids); lo += per {
+		hi := lo + per
+		if hi > len(ids) {
+			hi = len(ids)
+		}
+		batch := ids[lo:hi]
+		for _, f := range versions {
+			f := f
+			c.Case(func() any { return map[string]any{"identifiers": batch, "format": string(f)} }, func(t *engine.T) *engine.Violation {
+				nl := &sbom.NodeList{Nodes: []*sbom.Node{{Id: "root-0", Name: "root", PrimaryPurpose: []sbom.Purpose{sbom.Purpose_APPLICATION}}}, RootElements: []string{"root-0"}}
+				e := &sbom.Edge{From: "root-0", Type: sbom.Edge_contains}
+				for i, id := range batch {
+					nl.Nodes = append(nl.Nodes, &sbom.Node{Id: id, Name: fmt.Sprintf("n%d", i), Version: "1"})
+					e.To = append(e.To, id)
+				}
+				nl.Edges = []*sbom.Edge{e}
+				if v := RoundTrip(t, docOf(nl), f); v != nil {
+					return v
+				}
+				t.State(fmt.Sprint("idc:", lo, f))
+				t.Outcome("identifiers-ok")
+				return nil
+			})
+		}
+	}
 }
 
 // stringContents: every text attribute the statement lists x the near-string menu, on the root and on the child.
@@ -322,6 +364,9 @@ func stringContents(c *engine.Ctx) {
 			ms = append(ms, s)
 		}
 	}
+	nNear := len(ms)
+	// the vocabulary of the library's own sources (words, prefixes and separators it knows), in case variants
+	ms = append(ms, gen.Vocabulary()...)
 	// document level: the serial number is an arbitrary string for the library
 	for mi := range ms {
 		for _, f := range versions {
@@ -340,11 +385,14 @@ func stringContents(c *engine.Ctx) {
 			})
 		}
 	}
-	c.Bound("string-contents", fmt.Sprintf("%d text attributes x %d near-strings x {root, child} x {1.4, 1.5}; the document serial number x the same strings", len(slots), len(ms)))
+	c.Bound("string-contents", fmt.Sprintf("%d text attributes x (%d near-strings + %d values from the vocabulary of the library's sources: every word-like string literal as written / lower / upper / title case, structural literals embedded in filler; quick tier: these on the child only, spec versions alternating) x {root, child} x {1.4, 1.5}; the document serial number x the same strings", len(slots), nNear, len(ms)-nNear))
 	for si := range slots {
 		for mi := range ms {
 			for who := 0; who < 2; who++ {
-				for _, f := range versions {
+				for fi, f := range versions {
+					if mi >= nNear && !c.Thorough() && (who == 0 || fi != mi%2) {
+						continue // quick tier: vocabulary values on the child, spec versions alternating
+					}
 					si, mi, who, f := si, mi, who, f
 					c.Case(func() any {
 						return map[string]any{"attribute": slots[si].Name, "value": ms[mi], "node": who, "format": string(f)}
